@@ -129,7 +129,7 @@ def run(prog: Program, chk: Check):
              "connect_module does not return False for an already connected module")
 
     # ---- C19-P / C19-O who may call send_ack ---------------------------------------------
-    O = chk.rule("C19-O", "MessageManager.send_ack is called only from process_message (never from handlers with early returns)", 5,
+    O = chk.rule("C19-O", "MessageManager.send_ack is called only from process_message (never from handlers with early returns)", 1,
                  "an ack inside a handler is skipped by its early returns or doubled with the dispatcher's")
     for cf, cc in cg.call_sites_of(sack.key):
         O.decide(cf.key == pm.key, fkey(cf, cc), where(cf, cc), "called from the dispatcher", f"send_ack called from {cf.qual}")
